@@ -152,44 +152,76 @@ theorem cursor_loop_bounded (d : List Nat) (f : Cur → Cur)
 
 /-! ## `ComputedArray` -/
 
-/-- **`ComputedArray::get` honours `len()`**: `get(i) = Ok` implies `i < len()`, and the item lies
-wholly inside the data (`off + item_len ≤ data.len()`); in particular an array of zero-sized items
-(`len() == 0`) answers no index, so `while let Some(x) = array.get(i)` loops (the traversal array
-printer) end after at most `len()` items. -/
-theorem computedGet_lt_len (dataLen itemLen idx off : Nat) (h : compGet dataLen itemLen idx = some off) :
-    idx < compLen dataLen itemLen ∧ off = idx * itemLen ∧ off + itemLen ≤ dataLen := by
-  unfold compGet at h
-  by_cases hge : idx ≥ compLen dataLen itemLen
-  · simp [hge] at h
-  · simp only [hge, if_false] at h
-    unfold checkedMul at h
-    split at h
-    · cases h
-    · rename_i o ho
-      split at ho
-      · injection ho with ho
-        subst ho
-        split at h
-        · injection h with h
-          refine ⟨by omega, h.symm, ?_⟩
-          subst h
-          unfold compLen at hge
-          by_cases hz : itemLen = 0
-          · simp [hz] at hge
-          · simp only [hz, if_false] at hge
-            have hlt : idx < dataLen / itemLen := by omega
-            have hpos : 0 < itemLen := Nat.pos_of_ne_zero hz
-            have h1 : (idx + 1) * itemLen ≤ dataLen := by
-              have := Nat.mul_le_of_le_div itemLen (idx + 1) dataLen (by omega)
-              simpa using this
-            have : (idx + 1) * itemLen = idx * itemLen + itemLen := Nat.succ_mul idx itemLen
-            omega
-        · cases h
-      · cases ho
+/-- **an item handed out by `ComputedArray::get` lies wholly inside the data**: `get(i) = Ok` implies
+the item starts at `i · item_len` and `start + item_len ≤ data.len()` (no overflow: `checked_mul`). -/
+theorem computedGet_in_bounds (dataLen itemLen idx off : Nat) (h : compGet dataLen itemLen idx = some off) :
+    off = idx * itemLen ∧ off + itemLen ≤ dataLen := by
+  unfold compGet checkedMul at h
+  split at h
+  · cases h
+  · rename_i o ho
+    split at ho
+    · injection ho with ho
+      subst ho
+      split at h
+      · injection h with h; exact ⟨h.symm, by omega⟩
+      · cases h
+    · cases ho
 
-/-- no index is answered when the item size is zero -/
-theorem computedGet_zero_item (dataLen idx : Nat) : compGet dataLen 0 idx = none := by
-  simp [compGet, compLen]
+/-- for a non-zero item size `get` only answers indices below `len()` … -/
+theorem computedGet_lt_len (dataLen itemLen idx off : Nat) (hpos : 0 < itemLen)
+    (h : compGet dataLen itemLen idx = some off) : idx < compLen dataLen itemLen := by
+  obtain ⟨h1, h2⟩ := computedGet_in_bounds _ _ _ _ h
+  subst h1
+  unfold compLen
+  have hz : itemLen ≠ 0 := by omega
+  simp only [hz, if_false]
+  have h3 : (idx + 1) * itemLen ≤ dataLen := by rw [Nat.succ_mul]; exact h2
+  exact (Nat.le_div_iff_mul_le hpos).mpr h3
+
+/-- … but **zero-sized items are answered at every index** (`len()` is 0: the count is not
+recoverable from the byte length), so a loop over `get` must not run "until the first error" -/
+theorem computedGet_zero_item (dataLen idx : Nat) : compGet dataLen 0 idx = some 0 := by
+  simp [compGet, checkedMul, MAXU]
+
+/-- **the traversal of a computed-size record array is bounded by `len()`**: the array printer and
+`SomeArray::iter` (which walk `SomeArray::get` until the first `None`) make at most
+`len() ≤ data.len()` trips, for every item size including 0 — `SomeArray::get` returns `None` for
+`idx >= len()` whatever `ComputedArray::get` would answer. -/
+theorem traverse_computed_array_bounded (dataLen itemLen : Nat) :
+    ∃ evs, travTrace dataLen itemLen = some evs ∧ evs.length ≤ compLen dataLen itemLen ∧
+      compLen dataLen itemLen ≤ dataLen ∧ trapped evs = false := by
+  let L := compLen dataLen itemLen
+  have hstep : ∀ s, (travStep dataLen itemLen s).1 ≠ .done → s < L ∧ (travStep dataLen itemLen s).2 = s + 1 := by
+    intro s hnd
+    unfold travStep travGet at hnd ⊢
+    by_cases hge : s ≥ compLen dataLen itemLen
+    · simp [hge] at hnd
+    · simp only [hge, if_false] at hnd ⊢
+      cases hg : compGet dataLen itemLen s with
+      | none => simp [hg] at hnd
+      | some off => exact ⟨by omega, rfl⟩
+  have hInv : ∀ s, s ≤ L → (travStep dataLen itemLen s).2 ≤ L := by
+    intro s hs
+    by_cases hd : (travStep dataLen itemLen s).1 = .done
+    · unfold travStep at hd ⊢
+      split at hd
+      · simpa using hs
+      · simp at hd
+    · have := hstep s hd; omega
+  have hdec : ∀ s, s ≤ L → (travStep dataLen itemLen s).1 ≠ .done →
+      L - (travStep dataLen itemLen s).2 < L - s := by
+    intro s _ hnd; have := hstep s hnd; omega
+  have hnt : ∀ s, s ≤ L → (travStep dataLen itemLen s).1 ≠ .trap := by
+    intro s _; unfold travStep; split <;> simp
+  obtain ⟨evs, he, hl⟩ := run_complete (travStep dataLen itemLen) (fun s => L - s) (fun s => s ≤ L)
+    hInv hdec (L + 1) 0 (Nat.zero_le _) (by omega)
+  refine ⟨evs, he, by simpa using hl, ?_, not_trapped _ (fun s => s ≤ L) hInv hnt _ _ _ (Nat.zero_le _) he⟩
+  show compLen dataLen itemLen ≤ dataLen
+  unfold compLen
+  split
+  · omega
+  · exact Nat.div_le_self _ _
 
 /-! ## VARC -/
 
@@ -371,7 +403,8 @@ example : fdSelectRanges [(0, 7), (10, 8)] 9 = some 7 := by decide
 example : fdSelectRanges [(5, 7), (10, 8)] 3 = some 7 := by decide
 example : lookup2 [(9, 5, 77)] 7 = some 77 := by decide
 
-example : compGet 7 2 2 = some 4 ∧ compGet 7 2 3 = none := by decide
+example : compGet 7 2 2 = some 4 ∧ compGet 7 2 3 = none ∧ compGet 7 0 100000 = some 0 := by decide
+example : (travTrace 7 2).map items = some [0, 2, 4] ∧ (travTrace 7 0).map items = some [] := by decide
 
 /-- the hypothesis of `cursor_loop_bounded` is satisfiable: a one-byte read -/
 example (d : List Nat) (hlen : d.length ≤ MAXU) : ∀ c : Cur, c.pos < d.length → c.pos < (c.read d 1).2.pos := by
